@@ -1004,3 +1004,34 @@ pub(crate) fn k_chan_error_no_stale() {
     let bufs = r.fill_buf().unwrap();
     vk_assert!(!bufs[0].is_empty() && bufs[0][0] == value_at(0, A_BLK as u64), "after an error the reader continues with the next block, never with the stale frame");
 }
+
+// ------------------------------------------------------------------ FlacSampleReader::read on the buffered path (C07)
+// contract: with k > 0 samples still buffered, read(out) returns min(out.len(), k) > 0 and hands out exactly the
+// first samples of the buffer in order, whatever the decoder would say — in particular the end of the stream is
+// never reported while samples remain buffered.  (The refill path goes through Frame::iter and is out of reach.)
+fn stub_read_frame_none<R: std::io::Read>(_d: &mut Decoder<R>) -> Result<Option<&Frame>, Error> {
+    Ok(None)
+}
+#[kani::proof]
+#[kani::unwind(6)]
+#[kani::stub(Decoder::read_frame, stub_read_frame_none)]
+pub(crate) fn k_sample_reader_buffered_read() {
+    let d = Decoder::new(SeekRec { at: None, fail: false }, BlockList::new(mk_streaminfo(NonZero::new(6))));
+    let vals: [i32; 3] = kani::any();
+    let mut buf: VecDeque<i32> = VecDeque::new();
+    buf.push_back(vals[0]);
+    buf.push_back(vals[1]);
+    buf.push_back(vals[2]);
+    let mut r = FlacSampleReader { decoder: d, buf, frames_start: None };
+    let mut out = [0i32; 4];
+    let want: usize = kani::any();
+    kani::assume(want >= 1 && want <= 4);
+    let n = r.read(&mut out[..want]).unwrap();
+    vk_assert!(n == want.min(3), "read() must deliver buffered samples before reporting anything else");
+    let mut i = 0;
+    while i < 3 {
+        if i < n { vk_assert!(out[i] == vals[i], "buffered samples are delivered in order"); }
+        i += 1;
+    }
+    vk_assert!(r.buf.len() == 3 - n, "exactly the delivered samples leave the buffer");
+}
